@@ -9,6 +9,7 @@
 
 pub mod sym;
 pub mod tight;
+pub mod refm;
 
 /// Declares the Kani proof wrappers and the native replay table of a module.
 #[macro_export]
